@@ -445,7 +445,7 @@ func (p *PHYPayload) DecryptFRMPayload(key AES128Key) error {
 
 	// the FRMPayload contains MAC commands, which we need to unmarshal
 	var err error
-	if macPL.FPort != nil && *macPL.FPort == 0 {
+	if macPL.FPort != nil && *macPL.FPort == 0 && len(macPL.FRMPayload) != 0 {
 		macPL.FRMPayload, err = decodeDataPayloadToMACCommands(p.isUplink(), macPL.FRMPayload)
 	}
 
